@@ -240,6 +240,12 @@ def mat_binop(ctx, op, a, b, cmp=False):
 
     def el(x):
         if isinstance(x, SymMat):
+            e = x.elem
+            one_r = isinstance(x.n, int) and x.n == 1
+            one_c = isinstance(x.m, int) and x.m == 1
+            if one_r or one_c:
+                return (lambda i, j: e(0 if one_r else i, 0 if one_c else j)), \
+                    (None if one_r else x.n), (None if one_c else x.m)
             return x.elem, x.n, x.m
         if isinstance(x, SymArr):            # row vector broadcast over rows
             e = x.elem
@@ -251,6 +257,10 @@ def mat_binop(ctx, op, a, b, cmp=False):
     eb, nb, mb = el(b)
     n = na if na is not None else nb
     m = ma if ma is not None else mb
+    if n is None:
+        n = 1
+    if m is None:
+        m = 1
     if ma is not None and mb is not None:
         same_len(ctx, ma, mb)
     if na is not None and nb is not None:
